@@ -15,6 +15,7 @@ EXPLANATION = (
     "with their closed forms (Huang et al. coefficients), symmetry and zero-at-identity are discharged on the code's normal forms; the "
     "polar impls must go through the rectangular form; WCAG contrast = (max+0.05)/(min+0.05) with the five thresholds of WCAG 2.1. "
     "Not decided: symmetry of CIEDE2000 across its hue case split, the [1,21] range."
+    " Deprecated RelativeContrast API: contrast_ratio vs the WCAG formula, thresholds, 16 impls feed it the luminance of self and other; relative_luminance impls."
 )
 
 PI180 = None
